@@ -20,7 +20,9 @@ Lay(s) == LET u == FirstOcc(s, 1, <<>>) n == Len(u) IN
     field_order |-> RandomElement({<<>>, <<8, 7, 6, 5, 4, 3, 2, 1>>, <<7, 6, 4, 1, 2, 3, 5, 8>>, <<4, 5, 7, 8, 1, 6, 3, 2>>}),
     pad |-> RandomElement({0, 0, 1, 3}), dup_total |-> RandomElement({FALSE, FALSE, TRUE}), dup_meta |-> RandomElement(BOOLEAN),
     unknown_wire |-> RandomElement(BOOLEAN), unref |-> RandomElement({FALSE, FALSE, TRUE}), codec |-> RandomElement({"brotli", "zstd", "lzma"}),
-    pset |-> RandomElement({0, 0, 1, 2}), version |-> RandomElement({"normal", "empty", "long"})]
+    pset |-> RandomElement({0, 0, 1, 2}), version |-> RandomElement({"normal", "empty", "long"}),
+    \* the size of the dictionary (a metadata value of many KiB stands for hundreds of descriptors) and how the server frames its bodies
+    bigmeta |-> RandomElement({0, 0, 0, 9000, 70000}), frag |-> RandomElement({0, 0, 7, 1000})]
    : d \in PermSeqs(u), so \in PermSeqs(u), g \in [1..n -> {0, 5}], sl \in {0, 37}}
 Scen == UNION {{[sz |-> RandomElement(Profiles), src |-> s, prior |-> <<>>, inplace |-> FALSE,
                  seeds |-> RandomElement({<<>>, <<<<1>>>>, <<<<2, 0>>>>}), hl |-> RandomElement({4, 5, 8, 32, 63, 64}), layout |-> la] : la \in Lay(s)} : s \in Srcs17}
